@@ -296,7 +296,11 @@ func gen(c *trlib.Ctx) error {
 	okQw, wq := syncWrite("VirtualHost.AppendQueue", "srvStorage.AddQueue")
 	okXw, wx := syncWrite("VirtualHost.AppendExchange", "srvStorage.AddExchange")
 	okBw, wb := syncWrite("VirtualHost.PersistBinding", "srvStorage.AddBinding")
-	okDw, wd := syncWrite("VirtualHost.DeleteQueue", "srvStorage.DelQueue")
+	// DeleteQueue is a wrapper of deleteQueue (which the auto-delete turn calls too): both run in the caller's goroutine
+	okDw, wd := syncWrite("VirtualHost.deleteQueue", "srvStorage.DelQueue")
+	if okDw {
+		okDw, wd = syncWrite("VirtualHost.DeleteQueue", "deleteQueue")
+	}
 	add("metadata_written_before_reply", "AppendQueue / AppendExchange / PersistBinding / DeleteQueue write the store synchronously (C09)", okQw && okXw && okBw && okDw, wq+wx+wb+wd)
 
 	// 9. the queue length is only ever changed atomically
@@ -357,6 +361,30 @@ func gen(c *trlib.Ctx) error {
 	add("close_stops_consumers_before_requeue", "Channel.close: every consumer is stopped before handleReject returns the unsettled deliveries (C14 C01)",
 		cl != nil && lastStop >= 0 && requeue > lastStop, fmt.Sprintf("last Stop at call %d, handleReject at call %d", lastStop, requeue))
 
+	// 12. the auto-delete turn deletes a queue only if it is (still) an auto-delete queue without consumers
+	ad := trlib.FuncDecl(vh, "VirtualHost.handleAutoDeleteQueue")
+	guarded := false
+	if ad != nil {
+		ast.Inspect(ad.Body, func(n ast.Node) bool {
+			if ce, isC := n.(*ast.CallExpr); isC && strings.HasSuffix(trlib.ExprString(ce.Fun), "deleteQueue") && len(ce.Args) == 4 {
+				guarded = trlib.ExprString(ce.Args[1]) == "true" && trlib.ExprString(ce.Args[3]) == "true"
+			}
+			return true
+		})
+	}
+	dq2 := trlib.FuncDecl(vh, "VirtualHost.deleteQueue")
+	checks := false
+	if dq2 != nil {
+		ast.Inspect(dq2.Body, func(n ast.Node) bool {
+			if ifs, isIf := n.(*ast.IfStmt); isIf && strings.Contains(trlib.ExprString(ifs.Cond), "onlyAutoDelete") && strings.Contains(trlib.ExprString(ifs.Cond), "IsAutoDelete") {
+				checks = true
+			}
+			return true
+		})
+	}
+	add("autodelete_turn_checks_the_queue", "handleAutoDeleteQueue deletes through deleteQueue(name, ifUnused=true, _, onlyAutoDelete=true), which tests IsAutoDelete under the queue table lock (C14 C01 C17)",
+		guarded && checks, fmt.Sprintf("call guarded: %v, deleteQueue tests the flag: %v", guarded, checks))
+
 	// emit
 	sort.SliceStable(facts, func(i, j int) bool { return false })
 	var sb strings.Builder
@@ -383,7 +411,7 @@ func gen(c *trlib.Ctx) error {
 		"Channel.changeFlow", "Channel.sendConfirms", "Channel.addConfirm", "Channel.checkMethodAllowed", "Channel.publishCurrentMessage", "Channel.close")
 	c.RecordShapes("queue/queue.go", qf, "Queue.Push", "Queue.PopQos", "Queue.Requeue", "Queue.AddConsumer", "Queue.Purge", "Queue.Delete")
 	c.RecordShapes("amqp/types.go", ty, "ConfirmMeta.Confirm")
-	c.RecordShapes("server/vhost.go", vh, "VirtualHost.AppendQueue", "VirtualHost.AppendExchange", "VirtualHost.DeleteQueue", "NewVhost")
+	c.RecordShapes("server/vhost.go", vh, "VirtualHost.AppendQueue", "VirtualHost.AppendExchange", "VirtualHost.DeleteQueue", "VirtualHost.deleteQueue", "VirtualHost.handleAutoDeleteQueue", "NewVhost")
 	_ = token.NoPos
 	return nil
 }
